@@ -1,7 +1,7 @@
 #!/bin/bash
 # reseed.sh [names...]: re-run the property's quick check against every kept seeded change; one line per seed.
 cd /verif
-names=${*:-$(ls seeded | grep -v "benign\|variants")}
+names=${*:-$(ls seeded | grep -v "benign\|variants\|prompts")}
 export GOFLAGS=-mod=mod GOPROXY=off GOSUMDB=off GOTOOLCHAIN=local
 for name in $names; do
   src=/verif/seeded/$name
